@@ -6,6 +6,12 @@ props=[json.loads(l) for l in open('/verif/properties.jsonl')]
 ids=[p['id'] for p in props]
 TB="trusted base: the gosym executor written for this task (validated by `gosym selftest` and by native replay of every counterexample), golang.org/x/tools/go/ssa v0.29.0, z3 4.8.12 / z3 5.1.0 / cvc5 1.0; environment stubs of DESIGN.md §3.6; bounds as listed in the evidence file"
 checks={
+ "C08": dict(level="model_checking", ref="§5 C08",
+   text="NewWordList, WLRecipe.Entropy, Size and isAllCapitalizable are executed from their SSA with every map iteration order inside NewWordList as an explicit choice point, on lists of symbolic ASCII words (duplicates, twins, caseless and already-capitalised words arise as solver-feasible forks) and on concrete lists with non-ASCII, multi-part and interior-capital words; the list is built twice and from a permuted/repeated copy, and all Entropy() values must be bit-identical and equal the reference formula evaluated on the reference kept set.",
+   technique="bounded symbolic execution of go/ssa + SMT (QF_BV) with map-iteration order as a choice point; order-dependent counterexamples replayed natively until the runtime produces the order"),
+ "C10": dict(level="model_checking", ref="§5 C10",
+   text="NewWordList is executed from its SSA on lists of symbolic ASCII words and on concrete non-ASCII lists, for every iteration order of its maps and for reversed, rotated and repeated copies of the input: kept words = one copy of each distinct word minus capitalised twins (map-free reference), Size() equal, caller's slice untouched, empty list an error, and a generated word (symbolic draw) is a kept word or its title-cased form.",
+   technique="bounded symbolic execution of go/ssa + SMT (QF_BV) with map-iteration order as a choice point, native replay"),
  "C07": dict(level="model_checking", ref="§5 C07",
    text="CharRecipe.n, n, unionAll, entropyWithRequired, Entropy and golang-set (incl. PowerSet) run from their SSA on custom sets whose characters are symbolic bytes: set construction forks on every character equality, so every overlap pattern of allowed and required sets is a path whose feasibility the solver decided. On each path the library's exact big-integer count is compared with an independent subset-automaton DP (cross-checked by a second closed form), and Entropy() with log2 of that count by a different route, for small lengths and for lengths 1000/5000; NaN, -Inf and repeatability are asserted.",
    technique="bounded symbolic execution of go/ssa + SMT (QF_BV) over symbolic set members; big-integer/float arithmetic concrete per path"),
